@@ -266,6 +266,73 @@ class Reset(Driver):
         return evs
 
 
+class Hold(Driver):
+    """C12: a fully approved pull request 1 combined with one hold (spec
+    'hold': comment text), added and removed at every position."""
+    SRC1 = 'bugfix/TEST-1'
+
+    def enabled(self, w, state):
+        evs = []
+        hs = heads_of(state)
+        key = self.config.build_key
+        hold = self.spec['hold']
+        pr1 = [p for p in state['prs'] if p['id'] == 1][0]
+        if pr1['state'] == 'OPEN':
+            evs.append(['eval_pr', 1])
+            tips = [self.SRC1] + int_branches(state, self.SRC1)
+            if any(status_in(state, hs[b], key) != 'SUCCESSFUL'
+                   for b in tips if b in hs):
+                evs.append(['ci_int', 1, 'SUCCESSFUL'])
+            if self.spec.get('decline', True):
+                evs.append(['decline', 1])
+        elif pr1['state'] == 'DECLINED':
+            evs.append(['eval_pr', 1])
+        elif self.spec.get('eval_merged', True):
+            evs.append(['eval_pr', 1])
+        qmaster = sorted(b for b in hs if b.startswith('q/') and
+                         not b.startswith('q/w/'))
+        if qmaster:
+            qs = [b for b in hs if b.startswith('q/')]
+            if any(status_in(state, hs[b], key) != 'SUCCESSFUL' for b in qs):
+                evs.append(['ci_q_all', 'SUCCESSFUL'])
+            evs.append(['eval_commit', qmaster[0]])
+        mine = [i for i, c in enumerate(
+            [c for c in state['comments'] if c[0] == 1])
+            if c[1] == AUTHOR and c[2] == hold]
+        if not mine:
+            evs.append(['comment', 1, AUTHOR, hold])
+        for i in mine:
+            evs.append(['uncomment', 1, i])
+        # lifting a dependency on pull request 2 by merging it
+        pr2 = [p for p in state['prs'] if p['id'] == 2]
+        if pr2 and pr2[0]['state'] == 'OPEN' and \
+                self.spec.get('merge_pr2', False):
+            if self.config.queue:
+                evs.append(['seq', ['eval_pr', 2],
+                            ['ci_int', 2, 'SUCCESSFUL'], ['eval_pr', 2],
+                            ['ci_q_all', 'SUCCESSFUL'], ['eval_pr', 2]])
+            else:
+                evs.append(['seq', ['eval_pr', 2],
+                            ['ci_int', 2, 'SUCCESSFUL'], ['eval_pr', 2]])
+        return evs
+
+
+class Pairs(Driver):
+    """C12, second part: one pull request per (source, destination) name
+    pair, evaluated once from the initial state."""
+    def enabled(self, w, state):
+        if state['prs']:
+            return []
+        evs = []
+        for src in self.spec['sources']:
+            for dst in self.spec['destinations']:
+                if src == dst:
+                    continue
+                evs.append(['seq', ['mkbranch', src], ['mkbranch', dst],
+                            ['open_raw', src, dst], ['eval_pr', 1]])
+        return evs
+
+
 class Script(Driver):
     """A fixed history (spec['script']) followed event by event; deviations
     of kind spec['faults'] on the job transitions listed in
@@ -295,4 +362,5 @@ class Script(Driver):
 
 
 REGISTRY = {'flow': Flow, 'flow_faults': FlowFaults, 'repeat': Repeat,
-            'script': Script, 'child': Child, 'reset': Reset}
+            'script': Script, 'child': Child, 'reset': Reset, 'hold': Hold,
+            'pairs': Pairs}
